@@ -233,6 +233,10 @@ def _run_case(line: str) -> str:
     return " ".join([res, log_of(ub_instances), log_of(lnx_instances)] + trace)
 
 
+
+import verbosity  # noqa: E402
+run_case = verbosity.wrap(run_case)   # one case in eight runs at Verbosity.CHANNEL
+
 if __name__ == "__main__":
     import sys
     for ln in sys.stdin:
